@@ -3,6 +3,7 @@
 package ed25519
 
 import (
+	"crypto"
 	"github.com/oasisprotocol/curve25519-voi/curve"
 	"github.com/oasisprotocol/curve25519-voi/curve/scalar"
 	"github.com/oasisprotocol/curve25519-voi/internal/verif"
@@ -10,20 +11,29 @@ import (
 
 // VerifyExpandedWithOptions(NewExpandedPublicKey(pk), ...) == the same predicate as plain verification.
 //
-//verif:ob prop=C09,C01 name=VerifyExpanded_eq_predicate mode=bv tags=purego use=gapi split=mode:0..1;ns:0+63..65;nm:0..1
+//verif:ob prop=C09,C01 name=VerifyExpanded_eq_predicate mode=bv tags=purego use=gapi split=mode:0..2;ns:0+63..65;nm:0..1;nc:1+255
 func vh_C09_expanded() {
-	mode, ns, nm := verif.Case("mode"), verif.Case("ns"), verif.Case("nm")
+	mode, ns, nm, nc := verif.Case("mode"), verif.Case("ns"), verif.Case("nm"), verif.Case("nc")
+	if mode == 2 {
+		nm = 64
+	}
+	if mode == 0 {
+		nc = 0
+	}
 	pk := make([]byte, 32)
 	verif.AnyBytes("pk", pk)
 	sig := make([]byte, ns)
 	verif.AnyBytes("sig", sig)
 	msg := make([]byte, nm)
 	verif.AnyBytes("msg", msg)
-	ctx := make([]byte, mode)
+	ctx := make([]byte, nc)
 	verif.AnyBytes("ctx", ctx)
 	vo := anyVerifyOptions()
 	verif.Assume(!(vo.AllowNonCanonicalR && vo.CofactorlessVerify))
 	opts := &Options{Verify: vo, Context: string(ctx)}
+	if mode == 2 {
+		opts.Hash = crypto.SHA512
+	}
 	epk, err := NewExpandedPublicKey(pk)
 	verif.Assert((err == nil) == curve.GDecodes(pk), "expansion fails exactly for undecodable keys")
 	if err != nil {
@@ -31,7 +41,7 @@ func vh_C09_expanded() {
 		return
 	}
 	got := VerifyExpandedWithOptions(epk, msg, sig, opts)
-	verif.Assert(got == verifyPredicate(vo, mode, ctx, pk, msg, sig), "expanded-key verification returns the same predicate")
+	verif.Assert(got == verifyPredicate(vo, mode, ctx, pk, msg, sig), "expanded-key verification returns the same predicate (pure, ctx and ph variants)")
 }
 
 //verif:ob prop=C09,C19 name=NewExpandedPublicKey_lengths mode=bv tags=purego use=gapi split=n:0..1+31..33+64
